@@ -517,6 +517,7 @@ def run(ctx: common.Ctx):
     # ---- tie 4b + search (ii), nested: Parser.subparse autoindent wrapping composed with lineprefix ------------------------
     AI.run_autoindent(ctx, drv, bj, "O" if impl_variant.get(False) == "before-fix" else "B", fail, ref_prefix, split_keep, corpus["autoindent"])
     AI.run_marked_statements(ctx, drv, bj, sj, fail, ref_prefix, split_keep)
+    AI.run_line_statements(ctx, drv, bj, sj, "O" if impl_variant.get(False) == "before-fix" else "B", fail)
     ctx.extra["stream_seconds"]["autoindent"] = round(_t.time() - _t0, 1); _t0 = _t.time()
 
     # ---- tie 5 + search (iii): assert / ifuses in the real CodeGenEnvironment -------------------------------
@@ -1221,6 +1222,9 @@ def compare_template_set(ctx, bj, sj, tpl, main, context, trim, lstrip, origin, 
         star_comment = any("{#*" in v for v in tpl.values())
         kind = "comment-star-loses-blanks" if (caused_by_edit and star_comment) else \
             "differs-from-stock-because-of-the-lexer-edit" if caused_by_edit else "differs-from-stock-not-because-of-the-lexer-edit"
+        lsp = (opts or {}).get("line_statement_prefix")
+        if lsp and lsp.endswith("*") and not caused_by_edit and AI.has_lineprefix_wrapper(benv, tpl):
+            kind = "line-statement-prefix-star-autoindent"     # the PARSER edit: a line statement taken for an auto-indent block
         fail(ctx, {"kind": kind}, "a template without auto-indent marker renders differently in the bundled engine and in stock Jinja2",
                  {"stream": "differential", "origin": origin, "templates": tpl, "main": main, "context": {k: repr(v) for k, v in context.items()},
                   "context_json": _jsonable(context), "trim_blocks": trim, "lstrip_blocks": lstrip, "environment_options": opts or {}, "bundled": b, "stock": s,
@@ -1251,14 +1255,15 @@ def run_differential(ctx, bj, sj, corpus_templates):
     feats = {}
     for (trim, lstrip), n in plan:
         g = G.Gen(rng, trim=trim, lstrip=lstrip)
-        gl = G.Gen(rng, trim=trim, lstrip=lstrip, line_prefixes=True)
+        # line statement / comment prefixes, also ones that END in `*` (no marker: the parser must not take them for one)
+        gls = [G.Gen(rng, trim=trim, lstrip=lstrip, line_prefixes=pp) for pp in (("%%", "##"), ("//*", "##"), ("%*", "//"))]
         for _ in range(n):
             # the settings Nunavut fixes are varied too: the engine under check is the whole vendored lexer
             opts = {"keep_trailing_newline": rng.random() < 0.55, "newline_sequence": rng.choice(["\n", "\n", "\n", "\r\n", "\r"])}
             gen = g
-            if rng.random() < 0.12:
-                opts.update({"line_statement_prefix": "%%", "line_comment_prefix": "##"})
-                gen = gl
+            if rng.random() < 0.14:
+                gen = rng.choice(gls)
+                opts.update({"line_statement_prefix": gen.line_prefixes[0], "line_comment_prefix": gen.line_prefixes[1]})
             tpl, main, context = gen.template_set()
             for f in gen.features:
                 feats[f] = feats.get(f, 0) + 1
